@@ -75,6 +75,29 @@ package multi
 //@   modifies *
 //@   callsite channel.Adjudicator.Withdraw : recv == la && arg0 == *ctx && arg1.Params == (*req).Params && arg1.Idx == (*req).Idx && arg1.Secondary == (*req).Secondary && arg1.Tx.State == (*req).Tx.State && arg1.Tx.Sigs == (*req).Tx.Sigs && arg2 == *subStates
 
+//@ func (*Adjudicator).Progress$1
+//@   requires la != nil
+//@   modifies *
+//@   callsite channel.Adjudicator.Progress : recv == la && arg0 == *ctx && arg1.Params == (*req).Params && arg1.Idx == (*req).Idx && arg1.Secondary == (*req).Secondary && arg1.NewState == (*req).NewState && arg1.Sig == (*req).Sig
+
+// Register, Progress, Withdraw: the ledgers called are exactly the distinct ledgers of the transaction's assets (the list LedgerIDs
+// returns for req.Tx.Assets goes to dispatch unchanged, on this adjudicator).
+//@ func (*Adjudicator).Register
+//@   requires a != nil && a.adjudicators != nil && req.Tx.State != nil && forall i int :: 0 <= i && i < len(req.Tx.State.Assets) ==> req.Tx.State.Assets[i] != nil
+//@   modifies *
+//@   callsite (assets).LedgerIDs : recv == req.Tx.State.Assets
+//@   callsite (*Adjudicator).dispatch : recv == outer_a && assetIds == ledgerIDs
+//@ func (*Adjudicator).Progress
+//@   requires a != nil && a.adjudicators != nil && req.Tx.State != nil && forall i int :: 0 <= i && i < len(req.Tx.State.Assets) ==> req.Tx.State.Assets[i] != nil
+//@   modifies *
+//@   callsite (assets).LedgerIDs : recv == req.Tx.State.Assets
+//@   callsite (*Adjudicator).dispatch : recv == outer_a && assetIds == ledgerIDs
+//@ func (*Adjudicator).Withdraw
+//@   requires a != nil && a.adjudicators != nil && req.Tx.State != nil && forall i int :: 0 <= i && i < len(req.Tx.State.Assets) ==> req.Tx.State.Assets[i] != nil
+//@   modifies *
+//@   callsite (assets).LedgerIDs : recv == req.Tx.State.Assets
+//@   callsite (*Adjudicator).dispatch : recv == outer_a && assetIds == ledgerIDs
+
 // Funding: each per-ledger goroutine looks up the funder of exactly its ledger, reports an error if there is none and
 // otherwise forwards the unchanged request to that funder.
 //@ func fundLedgers$1
